@@ -2039,6 +2039,14 @@ impl<'a> Ctx<'a> {
                 let want = norm(anchor);
                 let mut hits = an.stmts.iter().filter(|(a, b)| norm(&text2[*a..*b]).starts_with(&want));
                 let Some((a, b)) = hits.nth(*k) else {
+                    if LENIENT_ANCHORS.get().copied().unwrap_or(false) {
+                        // `--lenient-anchors`: a statement-level proof HINT whose anchor is gone is left out (counted and
+                        // listed); the contract itself (requires/ensures/loop invariants) is never left out. A run that
+                        // still verifies is a proof; a run that fails decides nothing (the driver treats it as undecided)
+                        self.cnt.bump("lenient_skipped_hint");
+                        self.dropped.push(format!("{}: hint skipped, anchor `{}` #{k} not found", fs.path, anchor));
+                        continue;
+                    }
                     return Err(format!("lost anchor: {}: statement #{k} starting with `{anchor}` not found", fs.path));
                 };
                 self.cnt.bump("R7_hint");
@@ -2521,6 +2529,7 @@ pub fn gen(opts: &HashMap<String, String>) -> Result<(), String> {
     let mut g = Gen { ctx, contracts: get("contracts")?, out: String::new(), map: vec![], trusted: vec![], assumed_depth: 0, proved_elsewhere: vec![], emitted_fns: HashSet::new(), included: HashSet::new(), deferred_consts: vec![] };
     let tpl = get("template")?;
     set_expanded_path(opts.get("expanded").cloned());
+    let _ = LENIENT_ANCHORS.set(opts.get("lenient-anchors").map(|v| v == "1").unwrap_or(false));
     g.process(&tpl, 0)?;
     std::fs::write(get("out")?, &g.out).map_err(|e| e.to_string())?;
     // map
@@ -2577,6 +2586,7 @@ pub fn gen(opts: &HashMap<String, String>) -> Result<(), String> {
 // ------------------------------------------------------------------------------------------
 pub const EXPANDED_FILE: &str = "@expanded";
 static EXPANDED_PATH: std::sync::OnceLock<Option<String>> = std::sync::OnceLock::new();
+static LENIENT_ANCHORS: std::sync::OnceLock<bool> = std::sync::OnceLock::new();
 
 fn set_expanded_path(p: Option<String>) {
     let _ = EXPANDED_PATH.set(p);
